@@ -1,7 +1,1547 @@
-//! C16: not implemented yet.
+//! C16: aggregates and GROUP BY follow SQL semantics.
+//!
+//! Generated worlds (table `t`, optionally a second table `u` for aggregate-over-join shapes) with
+//! NULL-bearing / all-NULL / empty inputs; generated aggregate queries (COUNT(*), COUNT(e), SUM, AVG,
+//! MIN, MAX over int/float/text columns and over expressions; no GROUP BY / one / several keys /
+//! expression keys; WHERE incl. never-matching; HAVING on aggregates and keys). Every query runs on
+//! TurDB and on the reference evaluator (`sqlm::query::run_model`). Sub-assertions:
+//! `one_row_per_group`, `null_group_once`, `agg_value` (per aggregate function, with the input fact of
+//! the failing group), `having_filters`, plus `executes` / `no_panic`.
+//! A failing case is shrunk (select items, HAVING, GROUP BY keys, WHERE, argument expressions, then table
+//! rows by re-creating the tables in a fresh database) while the same sub-assertion for the same
+//! aggregate function still fails on the same execution path, so the signature is that of a minimal case.
+use crate::report::{catch, Ctx};
+use crate::rng::{fnv, Rng};
+use crate::sqlm::db::{is_panic, panic_tag, Db, Scratch};
+use crate::sqlm::expr::{bin, col, qcol, AggFn, BinOp, E};
+use crate::sqlm::gen::{gen_value, ColSpec, TableSpec, Ty};
+use crate::sqlm::query::{run_model, FromItem, Item, Join, JoinKind, MTable, QResult, Query, Select};
+use crate::sqlm::val::{row_key, rows_json, Row, V};
 use crate::Args;
+use serde_json::{json, Value as J};
+use std::collections::{BTreeMap, BTreeSet, HashMap};
 
-pub fn run(_a: &Args) -> i32 {
-    println!("INCONCLUSIVE property=C16 reason=check not implemented yet");
-    2
+// ---------------------------------------------------------------------------------------------
+// worlds
+// ---------------------------------------------------------------------------------------------
+
+#[derive(Clone)]
+struct World {
+    /// (spec, rows); index 0 = t, index 1 = u (join worlds only)
+    tabs: Vec<(TableSpec, Vec<Row>)>,
+}
+
+const TKEYS: &[&str] = &["a", "b", "ab", ""];
+
+impl World {
+    fn tables(&self) -> BTreeMap<String, MTable> {
+        let mut m = BTreeMap::new();
+        for (s, r) in &self.tabs {
+            m.insert(s.name.clone(), s.to_mtable(r.clone()));
+        }
+        m
+    }
+    fn ddl(&self) -> Vec<String> {
+        let mut v = vec![];
+        for (s, r) in &self.tabs {
+            v.push(s.create_sql());
+            for ch in r.chunks(20) {
+                v.push(format!("INSERT INTO {} VALUES {}", s.name, ch.iter().map(|r| format!("({})", r.iter().map(|v| v.sql()).collect::<Vec<_>>().join(", "))).collect::<Vec<_>>().join(", ")));
+            }
+        }
+        v
+    }
+    fn setup(&self, db: &mut Db) -> Result<(), String> {
+        // scratch databases only: no fsync per statement (does not change any query path)
+        let _ = db.exec("PRAGMA synchronous = OFF");
+        for s in self.ddl() {
+            db.exec(&s).map_err(|e| format!("{} -> {}", s, e))?;
+        }
+        Ok(())
+    }
+    fn col_ty(&self, tbl: &Option<String>, name: &str) -> Option<Ty> {
+        for (s, _) in &self.tabs {
+            if let Some(t) = tbl {
+                if !s.name.eq_ignore_ascii_case(t) {
+                    continue;
+                }
+            }
+            for (n, ty) in s.col_names().iter().zip(s.col_types()) {
+                if n.eq_ignore_ascii_case(name) {
+                    return Some(ty);
+                }
+            }
+        }
+        None
+    }
+    fn total_rows(&self) -> usize {
+        self.tabs.iter().map(|(_, r)| r.len()).sum()
+    }
+}
+
+fn pick_null_pm(rng: &mut Rng) -> u64 {
+    *rng.pick(&[0u64, 0, 150, 150, 500, 500, 1000])
+}
+
+fn gen_rows(rng: &mut Rng, spec: &TableSpec, n: usize, kmax: i64) -> Vec<Row> {
+    let mut rows = vec![];
+    for i in 0..n {
+        let mut r = vec![V::Int(i as i64 + 1)];
+        for c in &spec.cols {
+            let v = if rng.below(1000) < c.null_pm {
+                V::Null
+            } else if c.name == "ik" || c.name == "jk" {
+                V::Int(rng.range(0, kmax))
+            } else if c.name == "tk" {
+                V::Text(rng.pick(TKEYS).to_string())
+            } else if c.name == "ib" {
+                V::Int(rng.range(-5, 12))
+            } else {
+                gen_value(rng, c.ty, 0)
+            };
+            r.push(v);
+        }
+        rows.push(r);
+    }
+    rows
+}
+
+fn gen_world(rng: &mut Rng, join: bool) -> World {
+    let cs = |n: &str, ty: Ty, pm: u64| ColSpec { name: n.to_string(), ty, null_pm: pm };
+    let t = TableSpec {
+        name: "t".into(),
+        with_pk: true,
+        cols: vec![
+            cs("ik", Ty::Int, *rng.pick(&[0u64, 150, 300, 500])),
+            cs("tk", Ty::Text, *rng.pick(&[0u64, 150, 300, 500])),
+            cs("ia", Ty::Int, pick_null_pm(rng)),
+            cs("ib", Ty::Int, pick_null_pm(rng)),
+            cs("fa", Ty::Float, pick_null_pm(rng)),
+            cs("ta", Ty::Text, pick_null_pm(rng)),
+        ],
+    };
+    let kmax = *rng.pick(&[1i64, 2, 3, 3, 6]);
+    let n = match rng.below(100) {
+        0..=5 => 0,
+        6..=11 => 1,
+        12..=40 => rng.usize(2, 8),
+        _ => rng.usize(9, 40),
+    };
+    let t_rows = gen_rows(rng, &t, n, kmax);
+    let mut tabs = vec![(t, t_rows)];
+    if join {
+        let u = TableSpec {
+            name: "u".into(),
+            with_pk: true,
+            cols: vec![cs("jk", Ty::Int, *rng.pick(&[0u64, 150, 400])), cs("ja", Ty::Int, pick_null_pm(rng)), cs("jf", Ty::Float, pick_null_pm(rng)), cs("jt", Ty::Text, pick_null_pm(rng))],
+        };
+        let n = match rng.below(100) {
+            0..=5 => 0,
+            6..=15 => 1,
+            _ => rng.usize(2, 12),
+        };
+        let u_rows = gen_rows(rng, &u, n, kmax);
+        tabs.push((u, u_rows));
+    }
+    World { tabs }
+}
+
+// ---------------------------------------------------------------------------------------------
+// query generation
+// ---------------------------------------------------------------------------------------------
+
+struct Scope {
+    ints: Vec<E>,
+    floats: Vec<E>,
+    texts: Vec<E>,
+    /// candidate grouping columns
+    keys: Vec<E>,
+    pk: E,
+}
+
+fn scope_single() -> Scope {
+    Scope { ints: vec![col("ia"), col("ib"), col("ia"), col("ik")], floats: vec![col("fa")], texts: vec![col("ta"), col("tk")], keys: vec![col("ik"), col("ik"), col("tk"), col("tk"), col("ib"), col("fa"), col("ta")], pk: col("id") }
+}
+fn scope_join() -> Scope {
+    Scope {
+        ints: vec![qcol("t", "ia"), qcol("t", "ib"), qcol("u", "ja"), qcol("u", "ja")],
+        floats: vec![qcol("t", "fa"), qcol("u", "jf")],
+        texts: vec![qcol("t", "ta"), qcol("u", "jt")],
+        keys: vec![qcol("t", "ik"), qcol("t", "ik"), qcol("u", "jk"), qcol("t", "tk"), qcol("u", "jt")],
+        pk: qcol("t", "id"),
+    }
+}
+
+fn agg(f: AggFn, a: E) -> E {
+    E::Agg(f, Some(Box::new(a)))
+}
+fn count_star() -> E {
+    E::Agg(AggFn::CountStar, None)
+}
+fn ilit(i: i64) -> E {
+    E::Lit(V::Int(i))
+}
+fn flit(f: f64) -> E {
+    E::Lit(V::Float(f))
+}
+
+fn gen_num_expr(rng: &mut Rng, sc: &Scope) -> E {
+    let a = rng.pick(&sc.ints).clone();
+    let b = rng.pick(&sc.ints).clone();
+    let f = rng.pick(&sc.floats).clone();
+    match rng.below(6) {
+        0 | 1 => bin(BinOp::Add, a, b),
+        2 => bin(BinOp::Sub, a, b),
+        3 => bin(BinOp::Mul, a, ilit(2)),
+        4 => bin(BinOp::Mul, f, flit(2.0)),
+        _ => bin(BinOp::Add, f, b),
+    }
+}
+
+fn gen_num_arg(rng: &mut Rng, sc: &Scope) -> E {
+    match rng.below(100) {
+        0..=44 => rng.pick(&sc.ints).clone(),
+        45..=74 => rng.pick(&sc.floats).clone(),
+        _ => gen_num_expr(rng, sc),
+    }
+}
+
+fn gen_agg(rng: &mut Rng, sc: &Scope) -> E {
+    match rng.below(100) {
+        0..=11 => count_star(),
+        12..=29 => {
+            let a = match rng.below(10) {
+                0..=3 => rng.pick(&sc.ints).clone(),
+                4..=5 => rng.pick(&sc.floats).clone(),
+                6..=8 => rng.pick(&sc.texts).clone(),
+                _ => gen_num_expr(rng, sc),
+            };
+            agg(AggFn::Count, a)
+        }
+        30..=47 => agg(AggFn::Sum, gen_num_arg(rng, sc)),
+        48..=61 => agg(AggFn::Avg, gen_num_arg(rng, sc)),
+        x => {
+            let f = if x <= 80 { AggFn::Min } else { AggFn::Max };
+            let a = if rng.chance(1, 3) { rng.pick(&sc.texts).clone() } else { gen_num_arg(rng, sc) };
+            agg(f, a)
+        }
+    }
+}
+
+fn gen_where(rng: &mut Rng, sc: &Scope, n_rows: usize) -> E {
+    let cmp = *rng.pick(&[BinOp::Lt, BinOp::Le, BinOp::Gt, BinOp::Ge, BinOp::Eq, BinOp::Ne]);
+    let atom = |rng: &mut Rng| -> E {
+        match rng.below(100) {
+            0..=24 => bin(cmp, rng.pick(&sc.ints).clone(), ilit(rng.range(-3, 8))),
+            25..=34 => bin(*rng.pick(&[BinOp::Lt, BinOp::Gt, BinOp::Le, BinOp::Ge]), rng.pick(&sc.floats).clone(), flit(rng.range(-8, 30) as f64 / 4.0)),
+            35..=49 => bin(*rng.pick(&[BinOp::Eq, BinOp::Ne, BinOp::Lt, BinOp::Ge]), rng.pick(&sc.texts).clone(), E::Lit(V::Text(rng.pick(TKEYS).to_string()))),
+            50..=64 => {
+                let all: Vec<&E> = sc.ints.iter().chain(sc.floats.iter()).chain(sc.texts.iter()).collect();
+                E::IsNull(Box::new((*rng.pick(&all)).clone()), rng.chance(1, 2))
+            }
+            65..=79 => bin(*rng.pick(&[BinOp::Le, BinOp::Gt, BinOp::Lt, BinOp::Ge]), sc.pk.clone(), ilit(rng.range(0, n_rows as i64 + 1))),
+            80..=89 => bin(BinOp::Eq, sc.pk.clone(), ilit(rng.range(1, n_rows.max(1) as i64 + 1))),
+            // matches nothing: ids start at 1
+            _ => bin(BinOp::Lt, sc.pk.clone(), ilit(0)),
+        }
+    };
+    let a = atom(rng);
+    if rng.chance(1, 6) {
+        let b = atom(rng);
+        return bin(if rng.chance(2, 3) { BinOp::And } else { BinOp::Or }, a, b);
+    }
+    a
+}
+
+fn gen_having(rng: &mut Rng, sc: &Scope, world: &World, keys: &[E], aggs: &[E]) -> E {
+    // on a key (plain grouping column) or on an aggregate (selected or not)
+    let plain_keys: Vec<&E> = keys.iter().filter(|k| matches!(k, E::Col { .. })).collect();
+    if !plain_keys.is_empty() && rng.chance(1, 3) {
+        let k = (*rng.pick(&plain_keys)).clone();
+        if rng.chance(1, 3) {
+            return E::IsNull(Box::new(k), rng.chance(1, 2));
+        }
+        let ty = if let E::Col { tbl, name } = &k { world.col_ty(tbl, name) } else { None };
+        return match ty {
+            Some(Ty::Text) => bin(*rng.pick(&[BinOp::Eq, BinOp::Ne, BinOp::Gt]), k, E::Lit(V::Text(rng.pick(TKEYS).to_string()))),
+            Some(Ty::Float) => bin(*rng.pick(&[BinOp::Lt, BinOp::Ge]), k, flit(rng.range(-8, 30) as f64 / 4.0)),
+            _ => bin(*rng.pick(&[BinOp::Eq, BinOp::Ne, BinOp::Gt, BinOp::Le]), k, ilit(rng.range(0, 3))),
+        };
+    }
+    let a = if !aggs.is_empty() && rng.chance(3, 5) { rng.pick(aggs).clone() } else { gen_agg(rng, sc) };
+    if rng.chance(1, 6) {
+        return E::IsNull(Box::new(a), rng.chance(1, 2));
+    }
+    let cmp = *rng.pick(&[BinOp::Gt, BinOp::Ge, BinOp::Lt, BinOp::Le, BinOp::Eq, BinOp::Ne]);
+    let rhs = match &a {
+        E::Agg(AggFn::CountStar, _) | E::Agg(AggFn::Count, _) => ilit(rng.range(0, 4)),
+        E::Agg(_, Some(arg)) => match arg_class(arg, world).as_str() {
+            "textcol" => E::Lit(V::Text(rng.pick(TKEYS).to_string())),
+            "floatcol" => flit(rng.range(-8, 30) as f64 / 4.0),
+            _ => ilit(rng.range(-3, 12)),
+        },
+        _ => ilit(1),
+    };
+    bin(cmp, a, rhs)
+}
+
+#[derive(Clone, Copy, PartialEq, Eq, Debug)]
+enum Shape {
+    Single,
+    Grouped,
+    Join,
+}
+
+fn gen_select(rng: &mut Rng, world: &World, shape: Shape) -> Select {
+    let join = shape == Shape::Join;
+    let sc = if join { scope_join() } else { scope_single() };
+    let mut s = Select::default();
+    s.from = vec![FromItem::Table { name: "t".into(), alias: None }];
+    if join {
+        let kind = *rng.pick(&[JoinKind::Inner, JoinKind::Inner, JoinKind::Inner, JoinKind::Left, JoinKind::Cross]);
+        let on = if kind == JoinKind::Cross {
+            None
+        } else if rng.chance(5, 6) {
+            Some(bin(BinOp::Eq, qcol("t", "ik"), qcol("u", "jk")))
+        } else {
+            Some(bin(BinOp::Lt, qcol("t", "ik"), qcol("u", "jk")))
+        };
+        s.joins = vec![Join { kind, item: FromItem::Table { name: "u".into(), alias: None }, on }];
+    }
+    // grouping keys
+    let grouped = match shape {
+        Shape::Single => false,
+        Shape::Grouped => true,
+        Shape::Join => rng.chance(3, 5),
+    };
+    let mut keys: Vec<E> = vec![];
+    if grouped {
+        let r = rng.below(100);
+        if r < 60 || join {
+            keys.push(rng.pick(&sc.keys).clone());
+            if join && rng.chance(1, 5) {
+                let k2 = rng.pick(&sc.keys).clone();
+                if k2.sql() != keys[0].sql() {
+                    keys.push(k2);
+                }
+            }
+        } else if r < 85 {
+            keys.push(rng.pick(&sc.keys).clone());
+            for _ in 0..rng.usize(1, 2) {
+                let k2 = rng.pick(&sc.keys).clone();
+                if keys.iter().all(|k| k.sql() != k2.sql()) {
+                    keys.push(k2);
+                }
+            }
+        } else {
+            let ik = col("ik");
+            keys.push(match rng.below(4) {
+                0 => bin(BinOp::Add, ik, ilit(1)),
+                1 => bin(BinOp::Mul, ik, ilit(2)),
+                2 => bin(BinOp::Mod, ik, ilit(2)),
+                _ => bin(BinOp::Add, ik, col("ib")),
+            });
+        }
+    }
+    // aggregates
+    let nagg = match rng.below(100) {
+        0..=54 => 1,
+        55..=79 => 2,
+        80..=91 => 3,
+        _ => 4,
+    };
+    let mut aggs: Vec<E> = vec![];
+    for _ in 0..nagg * 2 {
+        if aggs.len() >= nagg {
+            break;
+        }
+        let a = gen_agg(rng, &sc);
+        if aggs.iter().all(|x| x.sql() != a.sql()) {
+            aggs.push(a);
+        }
+    }
+    // select list layout
+    let it = |e: &E| Item::Expr { e: e.clone(), alias: None };
+    let layout = rng.below(100);
+    if keys.is_empty() || layout < 80 {
+        s.items = keys.iter().map(it).chain(aggs.iter().map(it)).collect();
+    } else if layout < 90 {
+        s.items = aggs.iter().map(it).chain(keys.iter().map(it)).collect();
+    } else {
+        // keys not selected: a single aggregate so that any mismatch is attributable
+        aggs.truncate(1);
+        s.items = aggs.iter().map(it).collect();
+    }
+    s.group_by = keys.clone();
+    if rng.chance(2, 5) {
+        s.where_ = Some(gen_where(rng, &sc, world.tabs[0].1.len()));
+    }
+    let having_p = if grouped { 30 } else { 8 };
+    if rng.below(100) < having_p {
+        s.having = Some(gen_having(rng, &sc, world, &keys, &aggs));
+    }
+    s
+}
+
+// ---------------------------------------------------------------------------------------------
+// oracle
+// ---------------------------------------------------------------------------------------------
+
+#[derive(Clone, Debug)]
+struct Fail {
+    assertion: &'static str,
+    /// stable part of the cause that must be preserved while shrinking (aggregate function, having kind, ...)
+    func: String,
+    /// full cause for the signature (func + operand class + input fact)
+    cause: String,
+    /// SQL of the failing select item (agg_value only)
+    item: Option<String>,
+    /// "base" = the statement without HAVING failed; "having" = only the statement with HAVING failed
+    stage: &'static str,
+    detail: J,
+}
+
+fn arg_class(e: &E, world: &World) -> String {
+    match e {
+        E::Col { tbl, name } => match world.col_ty(tbl, name) {
+            Some(Ty::Int) => "intcol".into(),
+            Some(Ty::Float) => "floatcol".into(),
+            Some(Ty::Text) => "textcol".into(),
+            Some(Ty::Bool) => "boolcol".into(),
+            None => "col".into(),
+        },
+        _ => "expr".into(),
+    }
+}
+
+fn fn_name(f: AggFn) -> &'static str {
+    match f {
+        AggFn::CountStar => "count_star",
+        AggFn::Count => "count_col",
+        AggFn::Sum => "sum",
+        AggFn::Avg => "avg",
+        AggFn::Min => "min",
+        AggFn::Max => "max",
+    }
+}
+
+fn fact_rank(f: &str) -> u8 {
+    match f {
+        "no_nulls" | "nonempty" => 0,
+        "null_inputs" => 1,
+        "all_null_inputs" => 2,
+        "empty_input" => 3,
+        _ => 4,
+    }
+}
+
+fn fact_of(n: i64, nn: i64, has_arg: bool) -> &'static str {
+    if n == 0 {
+        "empty_input"
+    } else if !has_arg {
+        "nonempty"
+    } else if nn == 0 {
+        "all_null_inputs"
+    } else if nn < n {
+        "null_inputs"
+    } else {
+        "no_nulls"
+    }
+}
+
+fn item_exprs(s: &Select) -> Vec<&E> {
+    s.items.iter().filter_map(|i| if let Item::Expr { e, .. } = i { Some(e) } else { None }).collect()
+}
+
+fn key_of(vals: &[V]) -> String {
+    row_key(&vals.to_vec(), true)
+}
+
+/// per aggregate item: group key -> input fact (evaluated in the model)
+fn input_facts(base: &Select, tables: &BTreeMap<String, MTable>, arg: &Option<Box<E>>) -> Option<HashMap<String, &'static str>> {
+    let mut c = base.clone();
+    c.having = None;
+    let it = |e: E| Item::Expr { e, alias: None };
+    let mut items: Vec<Item> = base.group_by.iter().map(|g| it(g.clone())).collect();
+    items.push(it(count_star()));
+    if let Some(a) = arg {
+        items.push(it(agg(AggFn::Count, (**a).clone())));
+    }
+    c.items = items;
+    let m = run_model(&Query::Select(c), tables).ok()?;
+    let nk = base.group_by.len();
+    let mut out = HashMap::new();
+    for r in &m.rows {
+        let n = if let V::Int(i) = r[nk] { i } else { 0 };
+        let nn = if arg.is_some() {
+            if let V::Int(i) = r[nk + 1] {
+                i
+            } else {
+                0
+            }
+        } else {
+            n
+        };
+        out.insert(key_of(&r[..nk]), fact_of(n, nn, arg.is_some()));
+    }
+    Some(out)
+}
+
+fn bag_of(keys: impl Iterator<Item = String>) -> BTreeMap<String, i64> {
+    let mut m = BTreeMap::new();
+    for k in keys {
+        *m.entry(k).or_insert(0) += 1;
+    }
+    m
+}
+
+/// compare the rows TurDB returned for the HAVING-free statement `base` with the model's result
+fn compare_base(got: &[Row], m: &QResult, base: &Select, tables: &BTreeMap<String, MTable>, world: &World) -> Vec<Fail> {
+    let mut fails: Vec<Fail> = vec![];
+    let items = item_exprs(base);
+    let sql = Query::Select(base.clone()).sql();
+    if got.iter().any(|r| r.len() != items.len()) {
+        fails.push(Fail { assertion: "executes", func: "width".into(), cause: "width".into(), item: None, stage: "base", detail: json!({"sql": sql, "got_width": got.first().map(|r| r.len()), "want_width": items.len()}) });
+        return fails;
+    }
+    let gsql: Vec<String> = base.group_by.iter().map(|e| e.sql()).collect();
+    let agg_pos: Vec<usize> = items.iter().enumerate().filter(|(_, e)| matches!(e, E::Agg(..))).map(|(i, _)| i).collect();
+    // position of each grouping key in the select list
+    let key_pos: Vec<Option<usize>> = gsql.iter().map(|g| items.iter().position(|e| !matches!(e, E::Agg(..)) && &e.sql() == g)).collect();
+    let all_keys_selected = key_pos.iter().all(|p| p.is_some());
+    let ctx_detail = |extra: J| json!({"sql": sql, "got": rows_json(got, 12), "want": rows_json(&m.rows, 12), "info": extra});
+
+    // report one agg_value failure for select item p; `facts` = facts of the failing groups
+    let agg_fail = |p: usize, facts: Vec<&'static str>, extra: J| -> Fail {
+        let (f, arg) = match items[p] {
+            E::Agg(f, a) => (*f, a.clone()),
+            _ => unreachable!(),
+        };
+        let fact = facts.into_iter().min_by_key(|f| fact_rank(f)).unwrap_or("unknown");
+        let cls = match &arg {
+            Some(a) => format!("/{}", arg_class(a, world)),
+            None => String::new(),
+        };
+        Fail { assertion: "agg_value", func: fn_name(f).to_string(), cause: format!("{}{}/{}", fn_name(f), cls, fact), item: Some(items[p].sql()), stage: "base", detail: ctx_detail(json!({"aggregate": items[p].sql(), "mismatch": extra})) }
+    };
+    let arg_of = |p: usize| -> Option<Box<E>> {
+        match items[p] {
+            E::Agg(_, a) => a.clone(),
+            _ => None,
+        }
+    };
+
+    if gsql.is_empty() {
+        let facts0 = input_facts(base, tables, &None);
+        let input = facts0.as_ref().and_then(|f| f.get("").copied()).unwrap_or("unknown");
+        if got.len() != 1 {
+            let kind = if got.is_empty() { "no_row" } else { "several_rows" };
+            fails.push(Fail { assertion: "one_row_per_group", func: "single_group".into(), cause: format!("single_group/{}/{}", kind, input), item: None, stage: "base", detail: ctx_detail(json!({"got_rows": got.len(), "want_rows": 1})) });
+            return fails;
+        }
+        for &p in &agg_pos {
+            if got[0][p].key(true) != m.rows[0][p].key(true) {
+                let facts = input_facts(base, tables, &arg_of(p));
+                let fact = facts.as_ref().and_then(|f| f.get("").copied()).unwrap_or("unknown");
+                fails.push(agg_fail(p, vec![fact], json!({"got": got[0][p].to_json(), "want": m.rows[0][p].to_json()})));
+            }
+        }
+        return fails;
+    }
+
+    if all_keys_selected {
+        let kp: Vec<usize> = key_pos.iter().map(|p| p.unwrap()).collect();
+        let keyvals = |r: &Row| -> Vec<V> { kp.iter().map(|&p| r[p].clone()).collect() };
+        let has_null = |r: &Row| kp.iter().any(|&p| r[p].is_null());
+        let g_nn = bag_of(got.iter().filter(|r| !has_null(r)).map(|r| key_of(&keyvals(r))));
+        let w_nn = bag_of(m.rows.iter().filter(|r| !has_null(r)).map(|r| key_of(&keyvals(r))));
+        let g_n = bag_of(got.iter().filter(|r| has_null(r)).map(|r| key_of(&keyvals(r))));
+        let w_n = bag_of(m.rows.iter().filter(|r| has_null(r)).map(|r| key_of(&keyvals(r))));
+        if g_nn == w_nn && g_n != w_n {
+            let gn: i64 = g_n.values().sum();
+            let wn: i64 = w_n.values().sum();
+            let kind = if gn > wn { "null_group_split" } else if gn < wn { "null_group_missing" } else { "null_group_keys_differ" };
+            fails.push(Fail { assertion: "null_group_once", func: "null_group".into(), cause: kind.to_string(), item: None, stage: "base", detail: ctx_detail(json!({"null_key_rows_got": gn, "null_key_rows_want": wn})) });
+            return fails;
+        }
+        if g_nn != w_nn {
+            let (assertion_cause, extra) = if got.len() != m.rows.len() {
+                (if got.len() < m.rows.len() { "group_count/fewer" } else { "group_count/more" }, json!({"got_rows": got.len(), "want_rows": m.rows.len()}))
+            } else {
+                ("key_values_differ", json!({"got_keys": g_nn.keys().take(6).collect::<Vec<_>>(), "want_keys": w_nn.keys().take(6).collect::<Vec<_>>()}))
+            };
+            fails.push(Fail { assertion: "one_row_per_group", func: "groups".into(), cause: assertion_cause.to_string(), item: None, stage: "base", detail: ctx_detail(extra) });
+            return fails;
+        }
+        // keys agree (each exactly once): align and compare every aggregate column
+        let want_by_key: HashMap<String, &Row> = m.rows.iter().map(|r| (key_of(&keyvals(r)), r)).collect();
+        for &p in &agg_pos {
+            let mut bad: Vec<(String, J)> = vec![];
+            for r in got {
+                let k = key_of(&keyvals(r));
+                if let Some(w) = want_by_key.get(&k) {
+                    if r[p].key(true) != w[p].key(true) {
+                        bad.push((k, json!({"key": keyvals(r).iter().map(|v| v.to_json()).collect::<Vec<_>>(), "got": r[p].to_json(), "want": w[p].to_json()})));
+                    }
+                }
+            }
+            if !bad.is_empty() {
+                // group-by key order for the facts map = group_by order, the same as keyvals
+                let facts = input_facts(base, tables, &arg_of(p));
+                let fs: Vec<&'static str> = bad.iter().map(|(k, _)| facts.as_ref().and_then(|f| f.get(k).copied()).unwrap_or("unknown")).collect();
+                fails.push(agg_fail(p, fs, J::Array(bad.into_iter().take(4).map(|x| x.1).collect())));
+            }
+        }
+        return fails;
+    }
+
+    // some grouping key is not selected: rows cannot be aligned by key
+    if got.len() != m.rows.len() {
+        fails.push(Fail {
+            assertion: "one_row_per_group",
+            func: "groups".into(),
+            cause: (if got.len() < m.rows.len() { "group_count/fewer" } else { "group_count/more" }).to_string(),
+            item: None, stage: "base", detail: ctx_detail(json!({"got_rows": got.len(), "want_rows": m.rows.len()})),
+        });
+        return fails;
+    }
+    let mut any = false;
+    for &p in &agg_pos {
+        let g = bag_of(got.iter().map(|r| r[p].key(true)));
+        let w = bag_of(m.rows.iter().map(|r| r[p].key(true)));
+        if g != w {
+            any = true;
+            // fact over the whole input (groups cannot be told apart): weakest fact among all groups
+            let facts = input_facts(base, tables, &arg_of(p));
+            let fs: Vec<&'static str> = facts.map(|f| f.values().copied().collect()).unwrap_or_default();
+            fails.push(agg_fail(p, fs, json!({"column_bag_got": g, "column_bag_want": w})));
+        }
+    }
+    if !any && bag_of(got.iter().map(|r| row_key(r, true))) != bag_of(m.rows.iter().map(|r| row_key(r, true))) {
+        fails.push(Fail { assertion: "one_row_per_group", func: "groups".into(), cause: "row_pairing".into(), item: None, stage: "base", detail: ctx_detail(json!({})) });
+    }
+    fails
+}
+
+fn having_kind(h: &E, s: &Select) -> String {
+    let mut found: Option<E> = None;
+    h.visit(&mut |e| {
+        if found.is_none() {
+            if let E::Agg(..) = e {
+                found = Some(e.clone());
+            }
+        }
+    });
+    match found {
+        Some(E::Agg(f, a)) => {
+            let e = E::Agg(f, a);
+            let sel = item_exprs(s).iter().any(|i| i.sql() == e.sql());
+            if sel {
+                format!("agg:{}/selected", fn_name(f))
+            } else {
+                "agg_not_selected".to_string()
+            }
+        }
+        _ => "key".into(),
+    }
+}
+
+pub fn err_class(e: &str) -> String {
+    e.split(|c: char| !c.is_ascii_alphabetic()).filter(|w| !w.is_empty()).take(7).collect::<Vec<_>>().join("_").to_lowercase()
+}
+
+fn exec_fail(sql: &str, e: &str, stage: &str) -> Fail {
+    if is_panic(e) {
+        Fail { assertion: "no_panic", func: format!("panic:{}", panic_tag(e)), cause: format!("panic:{}/{}", panic_tag(e), stage), item: None, stage: "base", detail: json!({"sql": sql, "panic": e}) }
+    } else {
+        Fail { assertion: "executes", func: format!("error:{}", err_class(e)), cause: format!("unexpected_error:{}/{}", err_class(e), stage), item: None, stage: "base", detail: json!({"sql": sql, "error": e}) }
+    }
+}
+
+/// the rows reaching the aggregate (FROM/JOIN/WHERE of the statement, projected on the primary keys) are
+/// what the model says: otherwise the failure belongs to the join / WHERE properties (C17, C14), not to C16
+fn input_ok(db: &mut Db, tables: &BTreeMap<String, MTable>, s: &Select) -> bool {
+    let mut c = Select::default();
+    c.from = s.from.clone();
+    c.joins = s.joins.clone();
+    c.where_ = s.where_.clone();
+    let multi = !s.joins.is_empty() || s.from.len() > 1;
+    let mut names: Vec<String> = s.from.iter().map(|f| f.alias()).collect();
+    names.extend(s.joins.iter().map(|j| j.item.alias()));
+    c.items = names.iter().map(|n| Item::Expr { e: if multi { qcol(n, "id") } else { col("id") }, alias: None }).collect();
+    let q = Query::Select(c);
+    let m = match run_model(&q, tables) {
+        Ok(m) => m,
+        Err(_) => return true,
+    };
+    match db.query(&q.sql()) {
+        Ok(rows) => bag_of(rows.iter().map(|r| row_key(r, true))) == bag_of(m.rows.iter().map(|r| row_key(r, true))),
+        Err(_) => false,
+    }
+}
+
+struct Verdict {
+    judged: bool,
+    fails: Vec<Fail>,
+    /// the HAVING clause was judged (base statement clean)
+    having_judged: bool,
+}
+
+fn judge(db: &mut Db, tables: &BTreeMap<String, MTable>, world: &World, sel: &Select) -> Verdict {
+    let mut base = sel.clone();
+    base.having = None;
+    let qb = Query::Select(base.clone());
+    let m = match run_model(&qb, tables) {
+        Ok(m) => m,
+        Err(_) => return Verdict { judged: false, fails: vec![], having_judged: false },
+    };
+    let got = match db.query(&qb.sql()) {
+        Ok(r) => r,
+        Err(e) => return Verdict { judged: true, fails: vec![exec_fail(&qb.sql(), &e, "base")], having_judged: false },
+    };
+    let fails = compare_base(&got, &m, &base, tables, world);
+    if !fails.is_empty() || sel.having.is_none() {
+        return Verdict { judged: true, fails, having_judged: false };
+    }
+    // the HAVING-free statement is right: now HAVING must keep exactly the groups for which it is TRUE
+    let qh = Query::Select(sel.clone());
+    let mh = match run_model(&qh, tables) {
+        Ok(m) => m,
+        Err(_) => return Verdict { judged: true, fails: vec![], having_judged: false },
+    };
+    let hk = having_kind(sel.having.as_ref().unwrap(), sel);
+    match db.query(&qh.sql()) {
+        Ok(rows) => {
+            let g = bag_of(rows.iter().map(|r| row_key(r, true)));
+            let w = bag_of(mh.rows.iter().map(|r| row_key(r, true)));
+            let mut fails = vec![];
+            if g != w {
+                let dir = if rows.len() > mh.rows.len() { "keeps_too_many" } else if rows.len() < mh.rows.len() { "drops_too_many" } else { "wrong_rows" };
+                fails.push(Fail { assertion: "having_filters", func: hk.clone(), cause: format!("{}/{}", hk, dir), item: None, stage: "having", detail: json!({"sql": qh.sql(), "got": rows_json(&rows, 12), "want": rows_json(&mh.rows, 12), "without_having": rows_json(&got, 12)}) });
+            }
+            Verdict { judged: true, fails, having_judged: true }
+        }
+        Err(e) => {
+            let mut f = exec_fail(&qh.sql(), &e, "having");
+            f.cause = format!("{}/{}", f.cause, hk);
+            f.stage = "having";
+            Verdict { judged: true, fails: vec![f], having_judged: true }
+        }
+    }
+}
+
+// ---------------------------------------------------------------------------------------------
+// execution path
+// ---------------------------------------------------------------------------------------------
+
+fn header_shape(s: &Select) -> bool {
+    s.joins.is_empty() && s.from.len() == 1 && s.where_.is_none() && s.group_by.is_empty() && s.having.is_none() && s.items.len() == 1 && matches!(item_exprs(s).first(), Some(E::Agg(AggFn::Count, _)) | Some(E::Agg(AggFn::CountStar, _)))
+}
+
+/// (path class, normalised plan)
+fn path_of(db: &mut Db, s: &Select) -> (String, String) {
+    let plan = db.explain(&Query::Select(s.clone()).sql()).unwrap_or_default();
+    let norm: Vec<String> = plan
+        .lines()
+        .map(|l| l.trim().trim_start_matches("-> ").to_string())
+        .filter(|l| !l.is_empty())
+        .map(|l| match l.find(" (reverse") {
+            Some(i) => l[..i].to_string(),
+            None => l,
+        })
+        .map(|l| match l.find(" on ") {
+            Some(i) => l[..i].to_string(),
+            None => l,
+        })
+        .collect();
+    let norm = norm.join(">");
+    let path = if !s.joins.is_empty() || s.from.len() > 1 {
+        "join"
+    } else if header_shape(s) {
+        "header"
+    } else {
+        "volcano"
+    };
+    (path.to_string(), norm)
+}
+
+fn features(s: &Select) -> Vec<String> {
+    let mut f = vec![];
+    for j in &s.joins {
+        // a plain cross join is the canonical (feature-free) join shape of the `join` path
+        if j.kind != JoinKind::Cross {
+            f.push(format!("join_{:?}", j.kind).to_lowercase());
+        }
+        if let Some(E::Bin(op, _, _)) = &j.on {
+            if *op != BinOp::Eq {
+                f.push("non_equi_on".into());
+            }
+        }
+    }
+    if s.where_.is_some() {
+        f.push("where".into());
+    }
+    if !s.group_by.is_empty() {
+        f.push("group_by".into());
+    }
+    if s.group_by.len() > 1 {
+        f.push("multi_key".into());
+    }
+    if s.group_by.iter().any(|g| !matches!(g, E::Col { .. })) {
+        f.push("group_expr".into());
+    }
+    if s.having.is_some() {
+        f.push("having".into());
+    }
+    let items = item_exprs(s);
+    if items.iter().filter(|e| matches!(e, E::Agg(..))).count() > 1 {
+        f.push("multi_agg".into());
+    }
+    let first_key = items.iter().position(|e| !matches!(e, E::Agg(..)));
+    let first_agg = items.iter().position(|e| matches!(e, E::Agg(..)));
+    if let (Some(k), Some(a)) = (first_key, first_agg) {
+        if a < k {
+            f.push("agg_before_key".into());
+        }
+    }
+    let gsql: Vec<String> = s.group_by.iter().map(|e| e.sql()).collect();
+    if gsql.iter().any(|g| !items.iter().any(|e| &e.sql() == g)) {
+        f.push("key_not_selected".into());
+    }
+    f
+}
+
+// ---------------------------------------------------------------------------------------------
+// shrinking
+// ---------------------------------------------------------------------------------------------
+
+fn replace_expr(e: &E, from_sql: &str, to: &E) -> E {
+    if e.sql() == from_sql {
+        return to.clone();
+    }
+    e.clone()
+}
+
+fn stmt_candidates(s: &Select, keep_having: bool) -> Vec<Select> {
+    let mut out = vec![];
+    if s.having.is_some() && !keep_having {
+        let mut c = s.clone();
+        c.having = None;
+        out.push(c);
+    }
+    if s.items.len() > 1 {
+        for i in 0..s.items.len() {
+            let mut c = s.clone();
+            c.items.remove(i);
+            out.push(c);
+        }
+    }
+    for j in 0..s.group_by.len() {
+        let mut c = s.clone();
+        let g = c.group_by.remove(j).sql();
+        c.items.retain(|it| !matches!(it, Item::Expr { e, .. } if e.sql() == g));
+        if !c.items.is_empty() {
+            out.push(c);
+        }
+    }
+    for j in 0..s.group_by.len() {
+        let g = &s.group_by[j];
+        if !matches!(g, E::Col { .. }) {
+            for cand in g.shrink_candidates().into_iter().filter(|c| matches!(c, E::Col { .. })) {
+                if s.group_by.iter().any(|x| x.sql() == cand.sql()) {
+                    continue;
+                }
+                let mut c = s.clone();
+                let gs = g.sql();
+                c.group_by[j] = cand.clone();
+                for it in c.items.iter_mut() {
+                    if let Item::Expr { e, .. } = it {
+                        *e = replace_expr(e, &gs, &cand);
+                    }
+                }
+                out.push(c);
+            }
+        }
+    }
+    if s.where_.is_some() {
+        let mut c = s.clone();
+        c.where_ = None;
+        out.push(c);
+        if let Some(E::Bin(BinOp::And, a, b)) | Some(E::Bin(BinOp::Or, a, b)) = &s.where_ {
+            for x in [a, b] {
+                let mut c = s.clone();
+                c.where_ = Some((**x).clone());
+                out.push(c);
+            }
+        }
+    }
+    for i in 0..s.items.len() {
+        if let Item::Expr { e: E::Agg(f, Some(a)), .. } = &s.items[i] {
+            if !matches!(**a, E::Col { .. }) {
+                for cand in a.shrink_candidates().into_iter().filter(|c| matches!(c, E::Col { .. })) {
+                    let mut c = s.clone();
+                    c.items[i] = Item::Expr { e: agg(*f, cand), alias: None };
+                    out.push(c);
+                }
+            }
+        }
+    }
+    {
+        // canonical select list: every grouping key (once, in GROUP BY order) first, then the aggregates
+        let gsql: Vec<String> = s.group_by.iter().map(|e| e.sql()).collect();
+        let aggs: Vec<Item> = s.items.iter().filter(|it| matches!(it, Item::Expr { e: E::Agg(..), .. })).cloned().collect();
+        let mut canon: Vec<Item> = s.group_by.iter().map(|g| Item::Expr { e: g.clone(), alias: None }).collect();
+        canon.extend(aggs);
+        let cur_sql: Vec<String> = item_exprs(s).iter().map(|e| e.sql()).collect();
+        let canon_sql: Vec<String> = canon.iter().filter_map(|it| if let Item::Expr { e, .. } = it { Some(e.sql()) } else { None }).collect();
+        if !gsql.is_empty() && cur_sql != canon_sql {
+            let mut c = s.clone();
+            c.items = canon;
+            out.push(c);
+        }
+    }
+    for (ji, j) in s.joins.iter().enumerate() {
+        if j.kind != JoinKind::Cross {
+            let mut c = s.clone();
+            c.joins[ji].kind = JoinKind::Cross;
+            c.joins[ji].on = None;
+            out.push(c);
+        }
+        if j.kind == JoinKind::Left {
+            let mut c = s.clone();
+            c.joins[ji].kind = JoinKind::Inner;
+            out.push(c);
+        }
+        if let Some(E::Bin(op, a, b)) = &j.on {
+            if *op != BinOp::Eq {
+                let mut c = s.clone();
+                c.joins[ji].on = Some(bin(BinOp::Eq, (**a).clone(), (**b).clone()));
+                out.push(c);
+            }
+        }
+    }
+    out
+}
+
+struct Shrinker<'a> {
+    scratch: Option<&'a Scratch>,
+    next_dir: u64,
+    tests: u64,
+    fresh_failed: Vec<String>,
+    /// the shrink database is no longer in a known state (a DELETE/INSERT failed): stop row shrinking
+    broken: bool,
+    unconfirmed: u64,
+}
+
+type FKey = (String, String, String); // (assertion, func, path)
+
+fn find_fail(v: &Verdict, k: &FKey) -> Option<Fail> {
+    v.fails.iter().find(|f| f.assertion == k.0 && f.func == k.1).cloned()
+}
+
+impl<'a> Shrinker<'a> {
+    fn test_stmt(&mut self, db: &mut Db, tables: &BTreeMap<String, MTable>, world: &World, s: &Select, k: &FKey) -> Option<Fail> {
+        self.tests += 1;
+        if path_of(db, s).0 != k.2 {
+            return None;
+        }
+        let f = find_fail(&judge(db, tables, world, s), k)?;
+        if !input_ok(db, tables, s) {
+            return None;
+        }
+        Some(f)
+    }
+
+    fn shrink_stmt(&mut self, db: &mut Db, world: &World, s: &Select, k: &FKey, budget: usize) -> Select {
+        let tables = world.tables();
+        let mut cur = s.clone();
+        let mut left = budget;
+        'outer: loop {
+            // (dropping HAVING is a candidate like any other: for a having_filters failure it is rejected by the test)
+            let cur_feats: BTreeSet<String> = features(&cur).into_iter().collect();
+            for cand in stmt_candidates(&cur, false) {
+                if left == 0 {
+                    break 'outer;
+                }
+                // a candidate must not introduce a shape feature the current statement does not have
+                if !features(&cand).iter().all(|f| cur_feats.contains(f)) {
+                    continue;
+                }
+                left -= 1;
+                if self.test_stmt(db, &tables, world, &cand, k).is_some() {
+                    cur = cand;
+                    continue 'outer;
+                }
+            }
+            break;
+        }
+        cur
+    }
+
+    /// fresh database holding `world`; None if it cannot be set up
+    fn fresh(&mut self, world: &World) -> Option<Db> {
+        self.next_dir += 1;
+        let scratch = self.scratch?;
+        let mut db = match Db::create(&scratch.dir(&format!("shr{}", self.next_dir % 4))) {
+            Ok(d) => d,
+            Err(e) => {
+                self.fresh_failed.push(format!("create: {}", e));
+                return None;
+            }
+        };
+        if let Err(e) = world.setup(&mut db) {
+            self.fresh_failed.push(format!("setup: {}", e));
+            return None;
+        }
+        Some(db)
+    }
+
+    /// Move the shrink database from the rows of `cur` to the rows of `cand` (a subset, table `ti`) with DELETE, test,
+    /// and put the deleted rows back with INSERT if the failure is gone. The final minimal case is confirmed on a
+    /// database that is created from scratch, so DELETE artefacts cannot leak into a signature.
+    fn test_world(&mut self, db: &mut Db, cur: &World, cand: &World, ti: usize, s: &Select, k: &FKey) -> bool {
+        if self.broken {
+            return false;
+        }
+        self.tests += 1;
+        if k.2 == "header" {
+            // the header shortcut reads the stored row count, which DELETE + re-INSERT can disturb: build from scratch
+            let mut fdb = match self.fresh(cand) {
+                Some(d) => d,
+                None => return false,
+            };
+            let tables = cand.tables();
+            return path_of(&mut fdb, s).0 == k.2 && find_fail(&judge(&mut fdb, &tables, cand, s), k).is_some() && input_ok(&mut fdb, &tables, s);
+        }
+        let name = cur.tabs[ti].0.name.clone();
+        let keep: BTreeSet<String> = cand.tabs[ti].1.iter().map(|r| r[0].key(true)).collect();
+        let removed: Vec<Row> = cur.tabs[ti].1.iter().filter(|r| !keep.contains(&r[0].key(true))).cloned().collect();
+        if removed.is_empty() {
+            return false;
+        }
+        let del = if cand.tabs[ti].1.is_empty() { format!("DELETE FROM {}", name) } else { format!("DELETE FROM {} WHERE id IN ({})", name, removed.iter().map(|r| r[0].sql()).collect::<Vec<_>>().join(", ")) };
+        if db.exec(&del).is_err() {
+            self.broken = true;
+            return false;
+        }
+        let tables = cand.tables();
+        let ok = path_of(db, s).0 == k.2 && find_fail(&judge(db, &tables, cand, s), k).is_some() && input_ok(db, &tables, s);
+        if !ok {
+            for ch in removed.chunks(20) {
+                let ins = format!("INSERT INTO {} VALUES {}", name, ch.iter().map(|r| format!("({})", r.iter().map(|v| v.sql()).collect::<Vec<_>>().join(", "))).collect::<Vec<_>>().join(", "));
+                if db.exec(&ins).is_err() {
+                    self.broken = true;
+                    return false;
+                }
+            }
+        }
+        ok
+    }
+
+    fn shrink_rows(&mut self, db: &mut Db, world: &World, s: &Select, k: &FKey, budget: usize) -> World {
+        let mut cur = world.clone();
+        let mut left = budget;
+        for ti in 0..cur.tabs.len() {
+            // (a) empty table
+            if cur.tabs[ti].1.is_empty() {
+                continue;
+            }
+            if left > 0 {
+                left -= 1;
+                let mut c = cur.clone();
+                c.tabs[ti].1.clear();
+                if self.test_world(db, &cur, &c, ti, s, k) {
+                    cur = c;
+                    continue;
+                }
+            }
+            // (b) a single row (NULL-bearing rows first)
+            let mut by_nulls: Vec<usize> = (0..cur.tabs[ti].1.len()).collect();
+            by_nulls.sort_by_key(|&i| cur.tabs[ti].1[i].iter().filter(|v| v.is_null()).count());
+            // rows with the fewest NULLs first (a defect that does not need NULLs gets the fact `no_nulls`), then the most
+            let mut order: Vec<usize> = by_nulls.iter().take(3).copied().collect();
+            for &i in by_nulls.iter().rev().take(3) {
+                if !order.contains(&i) {
+                    order.push(i);
+                }
+            }
+            let mut done = false;
+            if cur.tabs[ti].1.len() > 1 {
+                for &i in order.iter() {
+                    if left == 0 {
+                        break;
+                    }
+                    left -= 1;
+                    let mut c = cur.clone();
+                    c.tabs[ti].1 = vec![cur.tabs[ti].1[i].clone()];
+                    if self.test_world(db, &cur, &c, ti, s, k) {
+                        cur = c;
+                        done = true;
+                        break;
+                    }
+                }
+            }
+            if done {
+                continue;
+            }
+            // (c) complement reduction with halving chunks
+            let mut chunk = (cur.tabs[ti].1.len() + 1) / 2;
+            while chunk >= 1 && left > 0 {
+                let mut start = 0;
+                while start < cur.tabs[ti].1.len() && left > 0 {
+                    let end = (start + chunk).min(cur.tabs[ti].1.len());
+                    let mut c = cur.clone();
+                    c.tabs[ti].1.drain(start..end);
+                    left -= 1;
+                    if self.test_world(db, &cur, &c, ti, s, k) {
+                        cur = c;
+                    } else {
+                        start = end;
+                    }
+                }
+                if chunk == 1 {
+                    break;
+                }
+                chunk /= 2;
+            }
+        }
+        cur
+    }
+}
+
+// ---------------------------------------------------------------------------------------------
+// component level: the generic Volcano HashAggregateExecutor (src/sql/executor.rs) driven directly
+// ---------------------------------------------------------------------------------------------
+
+fn run_generic_executor(rows: &[Row], group_by: &[usize], aggs: &[(AggFn, usize)]) -> Result<Vec<Row>, String> {
+    use smallvec::SmallVec;
+    use turdb::sql::executor::{AggregateFunction, Executor, HashAggregateExecutor, MaterializedRowSource, TableScanExecutor};
+    let owned: Vec<Vec<turdb::OwnedValue>> = rows.iter().map(|r| r.iter().map(|v| v.to_owned_value()).collect()).collect();
+    let gb: SmallVec<[usize; 4]> = group_by.iter().copied().collect();
+    let fs: SmallVec<[AggregateFunction; 4]> = aggs
+        .iter()
+        .map(|(f, c)| match f {
+            AggFn::CountStar | AggFn::Count => AggregateFunction::Count { distinct: false },
+            AggFn::Sum => AggregateFunction::Sum { column: *c },
+            AggFn::Avg => AggregateFunction::Avg { column: *c },
+            AggFn::Min => AggregateFunction::Min { column: *c },
+            AggFn::Max => AggregateFunction::Max { column: *c },
+        })
+        .collect();
+    let r = catch(move || -> Result<Vec<Row>, String> {
+        let arena = bumpalo::Bump::new();
+        let scan = TableScanExecutor::new(MaterializedRowSource::new(owned), &arena);
+        let mut ex = HashAggregateExecutor::new(scan, gb, fs, &arena);
+        ex.open().map_err(|e| format!("{:#}", e))?;
+        let mut out: Vec<Row> = vec![];
+        while let Some(row) = ex.next().map_err(|e| format!("{:#}", e))? {
+            out.push(row.values.iter().map(|v| V::from_owned(&turdb::OwnedValue::from(v))).collect());
+        }
+        ex.close().map_err(|e| format!("{:#}", e))?;
+        Ok(out)
+    });
+    match r {
+        Ok(x) => x,
+        Err(p) => Err(format!("PANIC: {}", p)),
+    }
+}
+
+struct CompCase {
+    world: World,
+    sel: Select,
+    group_by: Vec<usize>,
+    aggs: Vec<(AggFn, usize)>,
+}
+
+fn gen_component_case(rng: &mut Rng) -> CompCase {
+    let world = gen_world(rng, false);
+    let names = world.tabs[0].0.col_names(); // id ik tk ia ib fa ta
+    let idx = |n: &str| names.iter().position(|x| x == n).unwrap();
+    let keysets: Vec<Vec<&str>> = vec![vec![], vec![], vec!["ik"], vec!["ik"], vec!["tk"], vec!["ik", "tk"], vec!["fa"]];
+    let ks = rng.pick(&keysets).clone();
+    let nagg = rng.usize(1, 3);
+    let mut aggs: Vec<(AggFn, usize)> = vec![];
+    let mut items: Vec<Item> = ks.iter().map(|k| Item::Expr { e: col(k), alias: None }).collect();
+    let mut seen = BTreeSet::new();
+    for _ in 0..nagg {
+        let f = *rng.pick(&[AggFn::CountStar, AggFn::Sum, AggFn::Sum, AggFn::Avg, AggFn::Min, AggFn::Max, AggFn::Min, AggFn::Max]);
+        let c = match f {
+            AggFn::Min | AggFn::Max => *rng.pick(&["ia", "ib", "fa", "ta", "tk"]),
+            _ => *rng.pick(&["ia", "ib", "fa"]),
+        };
+        let e = if f == AggFn::CountStar { count_star() } else { agg(f, col(c)) };
+        if seen.insert(e.sql()) {
+            aggs.push((f, idx(c)));
+            items.push(Item::Expr { e, alias: None });
+        }
+    }
+    let sel = Select { items, from: vec![FromItem::Table { name: "t".into(), alias: None }], group_by: ks.iter().map(|k| col(k)).collect(), ..Default::default() };
+    CompCase { group_by: ks.iter().map(|k| idx(k)).collect(), aggs, world, sel }
+}
+
+fn judge_component(c: &CompCase, world: &World) -> Verdict {
+    let tables = world.tables();
+    let m = match run_model(&Query::Select(c.sel.clone()), &tables) {
+        Ok(m) => m,
+        Err(_) => return Verdict { judged: false, fails: vec![], having_judged: false },
+    };
+    match run_generic_executor(&world.tabs[0].1, &c.group_by, &c.aggs) {
+        Ok(got) => Verdict { judged: true, fails: compare_base(&got, &m, &c.sel, &tables, world), having_judged: false },
+        Err(e) => Verdict { judged: true, fails: vec![exec_fail(&Query::Select(c.sel.clone()).sql(), &e, "generic_executor")], having_judged: false },
+    }
+}
+
+// ---------------------------------------------------------------------------------------------
+// driver
+// ---------------------------------------------------------------------------------------------
+
+struct Stats {
+    sigs: BTreeMap<String, u64>,
+    paths: BTreeMap<String, u64>,
+    plans: BTreeMap<String, u64>,
+    judged_fn: BTreeMap<String, u64>,
+    judged_fact: BTreeMap<String, u64>,
+    shape: BTreeMap<String, u64>,
+    input_defects: BTreeMap<String, u64>,
+    fail_paths: BTreeMap<String, u64>,
+    example: BTreeMap<String, J>,
+}
+
+fn bump(m: &mut BTreeMap<String, u64>, k: &str) {
+    *m.entry(k.to_string()).or_insert(0) += 1;
+}
+
+pub fn run(a: &Args) -> i32 {
+    let mut ctx = Ctx::new(
+        "C16",
+        &a.tier,
+        a.seed,
+        "exploration",
+        "generated worlds: table t(id PK, ik, tk, ia, ib, fa, ta) with 0/1/2..40 rows, per-column NULL strata 0/15/50/100% (all-NULL columns and empty tables included), small key domains; 30% of worlds add u(id PK, jk, ja, jf, jt) for aggregate-over-join shapes. Generated statements: 1..4 of COUNT(*), COUNT(col|expr), SUM/AVG(int|float col|expr), MIN/MAX(int|float|text col|expr); no GROUP BY / one key / several keys / expression key (ik+1, ik*2, ik%2, ik+ib); keys before/after the aggregates or not selected; optional WHERE (comparisons, IS [NOT] NULL, id ranges, id = k, never-true id < 0); optional HAVING on an aggregate (selected or not) or on a key. Each statement is executed by TurDB and by the reference evaluator; first without HAVING (one_row_per_group, null_group_once, agg_value per aggregate function with the failing group's input fact: no_nulls/null_inputs/all_null_inputs/empty_input), then, if that is clean, with HAVING (having_filters). Numeric values compare by loose numeric key (Int 3 == Float 3.0, 9 significant digits). A failing case is shrunk (items, HAVING, keys, WHERE, argument expression, rows via re-created tables in a fresh database) while the same sub-assertion+function fails on the same path class (header = header-based COUNT fast path, volcano = DynamicExecutor::HashAggregate over a table/index scan, join = hand-written aggregate loop in database.rs, generic_executor = sql::executor::HashAggregateExecutor driven directly on materialized rows). distinct_nontrivial = distinct (statement text, per-aggregate input facts) pairs that were judged",
+    );
+    let mut rng = Rng::derive(a.seed, 16);
+    let quick = ctx.quick();
+    let miri = cfg!(miri);
+    let (nworlds, per_world, ncomp) = if miri {
+        (0, 0, 60)
+    } else if quick {
+        (260, 14, 1500)
+    } else {
+        (3200, 16, 30000)
+    };
+    let full_shrinks_per_raw = if quick { 2 } else { 5 };
+    let deadline = if quick { 45.0 } else { 520.0 };
+    // no files under Miri: only the component stage runs there
+    let scratch_holder = if miri { None } else { Some(Scratch::new("c16")) };
+    let scratch = scratch_holder.as_ref();
+    let mut st = Stats { sigs: BTreeMap::new(), paths: BTreeMap::new(), plans: BTreeMap::new(), judged_fn: BTreeMap::new(), judged_fact: BTreeMap::new(), shape: BTreeMap::new(), input_defects: BTreeMap::new(), fail_paths: BTreeMap::new(), example: BTreeMap::new() };
+    let mut shr = Shrinker { scratch, next_dir: 0, tests: 0, fresh_failed: vec![], broken: false, unconfirmed: 0 };
+    // raw signature (after statement shrinking) -> final signatures obtained by full (row) shrinking
+    let mut raw_cache: HashMap<String, Vec<String>> = HashMap::new();
+    let mut t_shrink_total = 0.0f64;
+
+    'worlds: for wi in 0..nworlds {
+        if ctx.elapsed() > deadline {
+            ctx.count("stopped_at_deadline", 1);
+            break;
+        }
+        let join_world = rng.chance(3, 10);
+        let world = gen_world(&mut rng, join_world);
+        let tables = world.tables();
+        let mut db = match Db::create(&scratch.expect("scratch directory").dir(&format!("w{}", wi % 8))) {
+            Ok(d) => d,
+            Err(e) => {
+                ctx.inconclusive(&format!("cannot create database: {}", e));
+                break;
+            }
+        };
+        if let Err(e) = world.setup(&mut db) {
+            ctx.violation("setup", "C16/setup_failed", json!({"error": e, "log": db.log}));
+            continue;
+        }
+        for _ in 0..per_world {
+            let shape = if join_world {
+                Shape::Join
+            } else if rng.chance(2, 5) {
+                Shape::Single
+            } else {
+                Shape::Grouped
+            };
+            let sel = gen_select(&mut rng, &world, shape);
+            let sql = Query::Select(sel.clone()).sql();
+            ctx.eval();
+            let (path, plan) = path_of(&mut db, &sel);
+            let v = judge(&mut db, &tables, &world, &sel);
+            if !v.judged {
+                ctx.count("dropped_model_undecided", 1);
+                continue;
+            }
+            bump(&mut st.paths, &path);
+            bump(&mut st.plans, &plan);
+            if sel.having.is_some() {
+                // the HAVING-free statement is executed (and judged) first; it may take another path
+                let mut b = sel.clone();
+                b.having = None;
+                let (p2, plan2) = path_of(&mut db, &b);
+                bump(&mut st.paths, &p2);
+                bump(&mut st.plans, &plan2);
+            }
+            for f in features(&sel) {
+                bump(&mut st.shape, &f);
+            }
+            if v.having_judged {
+                ctx.count("having_judged", 1);
+            } else if sel.having.is_some() {
+                ctx.count("having_not_judged_base_failed", 1);
+            }
+            // coverage: which functions over which input facts were judged
+            let mut base = sel.clone();
+            base.having = None;
+            let mut fact_sig = String::new();
+            for e in item_exprs(&sel) {
+                if let E::Agg(f, arg) = e {
+                    bump(&mut st.judged_fn, &format!("{}/{}", path, fn_name(*f)));
+                    if let Some(fm) = input_facts(&base, &tables, arg) {
+                        let fs: BTreeSet<&str> = fm.values().copied().collect();
+                        for x in &fs {
+                            bump(&mut st.judged_fact, &format!("{}/{}", fn_name(*f), x));
+                        }
+                        fact_sig.push_str(&format!("{:?};", fs));
+                    }
+                }
+            }
+            ctx.nontrivial(fnv(format!("{}|{}", sql, fact_sig).as_bytes()));
+            if v.fails.is_empty() {
+                ctx.count("cases_held", 1);
+                if ctx.samples.len() < 6 && (ctx.samples.len() as u64) < 1 + wi as u64 / 3 {
+                    ctx.sample(json!({"sql": sql, "plan": plan, "path": path, "rows_t": world.tabs[0].1.len()}));
+                }
+                continue;
+            }
+            if !input_ok(&mut db, &tables, &sel) {
+                // the un-aggregated FROM/WHERE result is already wrong: a join/WHERE defect, not judged here
+                ctx.count("dropped_input_rows_wrong", 1);
+                bump(&mut st.input_defects, &format!("{}/{}", path, features(&sel).into_iter().filter(|f| f.starts_with("join") || f == "where" || f == "non_equi_on").collect::<Vec<_>>().join("+")));
+                continue;
+            }
+            ctx.count("cases_with_failures", 1);
+            let t_shrink0 = std::time::Instant::now();
+            for f0 in &v.fails {
+                // a failure of the HAVING-free statement does not involve HAVING at all: drop it first, and take
+                // the execution path of the statement that actually failed
+                let mut sel = sel.clone();
+                if f0.stage == "base" {
+                    sel.having = None;
+                }
+                let (path, plan) = path_of(&mut db, &sel);
+                bump(&mut st.fail_paths, &path);
+                let k: FKey = (f0.assertion.to_string(), f0.func.clone(), path.clone());
+                // statement shrinking on the live database
+                let s1 = shr.shrink_stmt(&mut db, &world, &sel, &k, 60);
+                let f1 = find_fail(&judge(&mut db, &tables, &world, &s1), &k).unwrap_or_else(|| f0.clone());
+                let raw = format!("C16/{}/{}/{}/{}", f1.assertion, path, f1.cause, features(&s1).join("+"));
+                let cached = raw_cache.get(&raw).cloned().unwrap_or_default();
+                let (sig, min_sel, min_world, min_fail, how) = if cached.len() >= full_shrinks_per_raw && cached.iter().all(|x| x == &cached[0]) {
+                    ctx.count("shrinks_by_cached_mapping", 1);
+                    (cached[0].clone(), s1.clone(), world.clone(), f1.clone(), "statement_shrunk_rows_by_cached_mapping")
+                } else {
+                    ctx.count("shrinks_full", 1);
+                    // alternate row and statement shrinking until nothing changes (a GROUP BY that is needed on the
+                    // full data can often be dropped once only the failing group's rows are left, and then the
+                    // table can shrink further)
+                    let mut w2 = world.clone();
+                    let mut s2 = s1.clone();
+                    let mut f2: Option<Fail> = None;
+                    shr.broken = false;
+                    if let Some(mut db2) = shr.fresh(&world) {
+                        for _round in 0..3 {
+                            let w3 = shr.shrink_rows(&mut db2, &w2, &s2, &k, 60);
+                            let mut s3 = shr.shrink_stmt(&mut db2, &w3, &s2, &k, 40);
+                            // normal form for the volcano path: when only WHERE / HAVING / a second aggregate keeps the
+                            // statement off the header shortcut, try `SELECT ik, <agg> FROM t GROUP BY ik` instead
+                            let feats = features(&s3);
+                            if path == "volcano" && !feats.iter().any(|f| f == "group_by") && !feats.is_empty() {
+                                if let Some(item) = find_fail(&judge(&mut db2, &w3.tables(), &w3, &s3), &k).and_then(|f| f.item) {
+                                    if let Some(it) = s3.items.iter().find(|it| matches!(it, Item::Expr { e, .. } if e.sql() == item)) {
+                                        let mut c = Select::default();
+                                        c.from = s3.from.clone();
+                                        c.group_by = vec![col("ik")];
+                                        c.items = vec![Item::Expr { e: col("ik"), alias: None }, it.clone()];
+                                        if shr.test_stmt(&mut db2, &w3.tables(), &w3, &c, &k).is_some() {
+                                            s3 = c;
+                                        }
+                                    }
+                                }
+                            }
+                            let changed = w3.total_rows() != w2.total_rows() || Query::Select(s3.clone()).sql() != Query::Select(s2.clone()).sql();
+                            w2 = w3;
+                            s2 = s3;
+                            if !changed || shr.broken {
+                                break;
+                            }
+                        }
+                        drop(db2);
+                        // confirm the minimal case on a database built from scratch
+                        if let Some(mut db3) = shr.fresh(&w2) {
+                            let tb = w2.tables();
+                            if path_of(&mut db3, &s2).0 == path && input_ok(&mut db3, &tb, &s2) {
+                                f2 = find_fail(&judge(&mut db3, &tb, &w2, &s2), &k);
+                            }
+                        }
+                        if f2.is_none() {
+                            shr.unconfirmed += 1;
+                        }
+                    }
+                    match f2 {
+                        Some(f2) => {
+                            let feats = features(&s2).join("+");
+                            let sig = format!("C16/{}/{}/{}{}", f2.assertion, path, f2.cause, if feats.is_empty() { String::new() } else { format!("/{}", feats) });
+                            raw_cache.entry(raw.clone()).or_default().push(sig.clone());
+                            (sig, s2, w2, f2, "fully_shrunk")
+                        }
+                        None => {
+                            // could not re-establish on the reduced world (should not happen): keep the statement-shrunk case
+                            let feats = features(&s1).join("+");
+                            let sig = format!("C16/{}/{}/{}{}", f1.assertion, path, f1.cause, if feats.is_empty() { String::new() } else { format!("/{}", feats) });
+                            (sig, s1.clone(), world.clone(), f1.clone(), "statement_shrunk_only")
+                        }
+                    }
+                };
+                bump(&mut st.sigs, &sig);
+                let detail = json!({
+                    "original_sql": sql,
+                    "original_plan": plan,
+                    "original_failure": f0.detail,
+                    "minimal_sql": Query::Select(min_sel.clone()).sql(),
+                    "minimal_setup": if min_world.total_rows() <= 12 { json!(min_world.ddl()) } else { json!({"statements": min_world.ddl().len(), "first": min_world.ddl().into_iter().take(4).collect::<Vec<_>>()}) },
+                    "minimal_failure": min_fail.detail,
+                    "shrink": how,
+                });
+                if !st.example.contains_key(&sig) && how == "fully_shrunk" {
+                    st.example.insert(sig.clone(), json!({"setup": min_world.ddl(), "sql": Query::Select(min_sel.clone()).sql(), "failure": min_fail.detail}));
+                }
+                if let Ok(pat) = std::env::var("C16_DUMP") {
+                    if sig.contains(&pat) {
+                        eprintln!("DUMP {} {}", sig, serde_json::to_string(&detail).unwrap_or_default());
+                    }
+                }
+                ctx.violation(f0.assertion, &sig, detail);
+                if ctx.elapsed() > deadline + 8.0 {
+                    ctx.count("stopped_at_deadline", 1);
+                    break 'worlds;
+                }
+            }
+            t_shrink_total += t_shrink0.elapsed().as_secs_f64();
+        }
+    }
+
+    let t_main = ctx.elapsed();
+    // component level: generic HashAggregateExecutor on materialized rows (also the Miri stage)
+    let mut comp_judged = 0u64;
+    for _ in 0..ncomp {
+        if ctx.elapsed() > deadline + 10.0 {
+            break;
+        }
+        let c = gen_component_case(&mut rng);
+        ctx.eval();
+        let v = judge_component(&c, &c.world);
+        if !v.judged {
+            ctx.count("dropped_model_undecided", 1);
+            continue;
+        }
+        comp_judged += 1;
+        bump(&mut st.paths, "generic_executor");
+        let sql = Query::Select(c.sel.clone()).sql();
+        ctx.nontrivial(fnv(format!("generic|{}|{}", sql, c.world.tabs[0].1.len()).as_bytes()));
+        for (f, _) in &c.aggs {
+            bump(&mut st.judged_fn, &format!("generic_executor/{}", fn_name(*f)));
+        }
+        for f0 in &v.fails {
+            // shrink in memory: drop the grouping keys, drop the other aggregates, then rows (empty, one at a time)
+            let same = |c: &CompCase, w: &World| judge_component(c, w).fails.iter().find(|f| f.assertion == f0.assertion && f.func == f0.func).cloned();
+            let mut cc = CompCase { world: c.world.clone(), sel: c.sel.clone(), group_by: c.group_by.clone(), aggs: c.aggs.clone() };
+            let mut w = cc.world.clone();
+            for _round in 0..3 {
+                let before = (cc.group_by.len(), cc.aggs.len(), w.tabs[0].1.len());
+                if !cc.group_by.is_empty() {
+                    let nk = cc.group_by.len();
+                    let mut cand = CompCase { world: w.clone(), sel: cc.sel.clone(), group_by: vec![], aggs: cc.aggs.clone() };
+                    cand.sel.group_by.clear();
+                    cand.sel.items.drain(0..nk);
+                    if same(&cand, &w).is_some() {
+                        cc = cand;
+                    }
+                }
+                let mut ai = 0;
+                while cc.aggs.len() > 1 && ai < cc.aggs.len() {
+                    let nk = cc.group_by.len();
+                    let mut cand = CompCase { world: w.clone(), sel: cc.sel.clone(), group_by: cc.group_by.clone(), aggs: cc.aggs.clone() };
+                    cand.aggs.remove(ai);
+                    cand.sel.items.remove(nk + ai);
+                    if same(&cand, &w).is_some() {
+                        cc = cand;
+                    } else {
+                        ai += 1;
+                    }
+                }
+                let mut cand = w.clone();
+                cand.tabs[0].1.clear();
+                if same(&cc, &cand).is_some() {
+                    w = cand;
+                } else {
+                    let mut i = 0;
+                    while i < w.tabs[0].1.len() {
+                        let mut cand = w.clone();
+                        cand.tabs[0].1.remove(i);
+                        if same(&cc, &cand).is_some() {
+                            w = cand;
+                        } else {
+                            i += 1;
+                        }
+                    }
+                }
+                if before == (cc.group_by.len(), cc.aggs.len(), w.tabs[0].1.len()) {
+                    break;
+                }
+            }
+            let f2 = same(&cc, &w).unwrap_or_else(|| f0.clone());
+            let feats = features(&cc.sel).join("+");
+            let sig = format!("C16/{}/generic_executor/{}{}", f2.assertion, f2.cause, if feats.is_empty() { String::new() } else { format!("/{}", feats) });
+            bump(&mut st.sigs, &sig);
+            let aggs_txt: Vec<String> = cc.aggs.iter().map(|(f, i)| format!("{}(col {})", fn_name(*f), i)).collect();
+            if !st.example.contains_key(&sig) {
+                st.example.insert(sig.clone(), json!({"rows": rows_json(&w.tabs[0].1, 8), "columns": w.tabs[0].0.col_names(), "group_by_columns": cc.group_by, "aggregates": aggs_txt, "failure": f2.detail}));
+            }
+            ctx.violation(f0.assertion, &sig, json!({"component": "turdb::sql::executor::HashAggregateExecutor", "original_equivalent_sql": sql, "rows": rows_json(&w.tabs[0].1, 12), "group_by_columns": cc.group_by, "aggregates": aggs_txt, "minimal_failure": f2.detail, "original_failure": f0.detail}));
+        }
+    }
+    ctx.extra.insert("wall_seconds_by_stage".into(), json!({"sql_level_total": t_main, "of_which_shrinking": t_shrink_total, "generic_executor": ctx.elapsed() - t_main}));
+    ctx.count("generic_executor_cases", comp_judged);
+    ctx.count("shrink_reexecutions", shr.tests);
+    ctx.count("shrink_fresh_database_failed", shr.fresh_failed.len() as u64);
+    ctx.count("shrink_result_not_confirmed_on_fresh_database", shr.unconfirmed);
+    if !shr.fresh_failed.is_empty() {
+        ctx.extra.insert("shrink_fresh_database_errors".into(), json!(shr.fresh_failed.iter().take(5).collect::<Vec<_>>()));
+    }
+
+    // both SQL-level paths named by the property must have been reached
+    if !miri {
+        for p in ["volcano", "join", "header"] {
+            if st.paths.get(p).copied().unwrap_or(0) == 0 {
+                ctx.inconclusive(&format!("execution path '{}' was never reached", p));
+            }
+        }
+    }
+    ctx.extra.insert("cases_per_path".into(), json!(st.paths));
+    ctx.extra.insert("cases_per_plan".into(), json!(st.plans));
+    ctx.extra.insert("failing_statements_per_path".into(), json!(st.fail_paths));
+    ctx.extra.insert("judged_aggregates_by_path_and_function".into(), json!(st.judged_fn));
+    ctx.extra.insert("judged_aggregates_by_function_and_input_fact".into(), json!(st.judged_fact));
+    ctx.extra.insert("statement_features".into(), json!(st.shape));
+    ctx.extra.insert("signatures".into(), json!(st.sigs));
+    ctx.extra.insert("dropped_because_unaggregated_input_wrong".into(), json!(st.input_defects));
+    ctx.extra.insert("minimal_example_per_signature".into(), json!(st.example));
+    ctx.assumptions.push("SUM/AVG/MIN/MAX results are compared numerically (Int 3 == Float 3.0), the Int-vs-Float result type is not asserted; float inputs are multiples of 0.25 so sums are exact; integer magnitudes stay below 2^32 so no sum overflows; text compares bytewise; no ORDER BY is generated (result sets compare as bags / by group key)".into());
+    ctx.assumptions.push("path classes are decided by statement shape and confirmed by EXPLAIN (cases_per_plan): a join below HashAggregate is executed by the hand-written aggregate loop of Database::query, a lone COUNT without WHERE/GROUP BY/HAVING by the header row-count shortcut, everything else by DynamicExecutor::HashAggregate".into());
+    ctx.finish()
 }
